@@ -24,7 +24,8 @@
     other value: the underlying writer's own error. *)
 From Coq Require Import ZArith List Bool Lia.
 From Low Require Import Lib.MachInt Lib.BitSeq Model.SectionWriter Spec.SectionWriterSpec Run.C18
-  Proofs.SectionWriterProofs Proofs.SectionWriterCalls.
+  Model.MemFile Model.SectionReader Spec.SectionReaderSpec
+  Proofs.SectionWriterProofs Proofs.SectionWriterCalls Proofs.MemFileProofs Proofs.SectionIOProofs.
 Import ListNotations.
 Open Scope Z_scope.
 
@@ -271,3 +272,84 @@ Proof.
   - rewrite AtToWriter_section by lia. apply reachable_new.
   - vm_compute. repeat split; reflexivity.
 Qed.
+
+(** * Widening: the rest of package iohelper (AtToReader) and its use together with
+    AtToWriter / SectionWriter over one file.
+
+    [Model/SectionReader.v]: AtToReader(r, o) = io.NewSectionReader(r, o, maxOffset-o) with the
+    Go library's SectionReader given a definitional model (trusted base, exercised by every
+    correspondence run).  [Model/MemFile.v]: the in-memory file of the harness: [write_at],
+    [read_at], [byte_at] (0 beyond the end), [file_after init outs] = the file after the
+    underlying calls of a call sequence, the file storing the prefix it accepted.
+    [Spec/SectionReaderSpec.v]: a stream position counted from o, unbounded integers. *)
+
+(** AtToReader(r, o) refines the stream reader from o, for every file, every fault script of
+    the file and every sequence of Read lengths: counts, error classes, bytes delivered and the
+    (absolute offset, length) asked of the file are the specification's. *)
+Theorem C18_at_to_reader : forall o f sc lens,
+  0 <= o <= 2^63 - 1 -> Forall (fun l => 0 <= l < 2^63) lens ->
+  map (fun r => (rcount r, rerr r, rbytes r, rcalls r)) (rrun (AtToReader o) f sc lens)
+  = spec_at_to_reader o f sc lens.
+Proof. exact at_to_reader_refines. Qed.
+Print Assumptions C18_at_to_reader.
+
+(** Over a file that does not fail, the Reads deliver, in order and without gap or overlap, the
+    bytes of the file from offset o on: as many as were asked for in total, or all there are. *)
+Theorem C18_at_to_reader_streams : forall o f lens,
+  0 <= o <= 2^63 - 1 -> zlen f <= 2^63 - 1 -> Forall (fun l => 0 <= l < 2^63) lens ->
+  concat (map rbytes (rrun (AtToReader o) f [] lens)) =
+  firstn (Z.to_nat (zsum lens)) (skipn (Z.to_nat o) f).
+Proof. exact at_to_reader_streams. Qed.
+Print Assumptions C18_at_to_reader_streams.
+
+(** Containment, seen in the file: whatever the call sequence and whatever the file accepts of
+    each call, every byte outside [o, o+n) is what it was (bytes beyond the end count as 0), the
+    file never shrinks and never grows beyond max(old length, o + n). *)
+Theorem C18_file_confined : forall o n sc cs init,
+  0 <= o /\ 0 <= n /\ o + n <= 2^63 - 1 ->
+  Forall (fun r => 0 <= fst r) sc -> Forall call_ok cs ->
+  let file := file_after init (run (NewSectionWriter o n) sc cs) in
+  (forall i, 0 <= i -> (i < o \/ o + n <= i) -> byte_at file i = byte_at init i) /\
+  zlen init <= zlen file <= Z.max (zlen init) (o + n).
+Proof. exact section_file_confined. Qed.
+Print Assumptions C18_file_confined.
+
+(** the file the model leaves is the file the cursor/length machine leaves *)
+Theorem C18_file_refinement : forall o n sc cs init,
+  0 <= o /\ 0 <= n /\ o + n <= 2^63 - 1 ->
+  Forall (fun r => 0 <= fst r) sc -> Forall call_ok cs ->
+  file_after init (run (NewSectionWriter o n) sc cs) =
+  spec_file_after init (spec_section o n sc (map to_acall cs)).
+Proof. exact section_file_refines. Qed.
+Print Assumptions C18_file_refinement.
+
+(** Round trip (how pbcmpl and its users combine the two): any sequence of Writes through
+    AtToWriter(f, o) over a file that accepts everything returns (len, nil) each, leaves the
+    concatenation stored at o, and any sequence of Reads through AtToReader(f, o) then streams
+    it back, followed by whatever the file held beyond it. *)
+Theorem C18_write_read_round_trip : forall o init bufs,
+  0 <= o -> o + zlen (concat bufs) < 2^63 - 1 -> zlen init <= 2^63 - 1 ->
+  let outs := run (AtToWriter o) [] (map CWrite bufs) in
+  let file := file_after init outs in
+  map rets outs = map (fun b => [zlen b; E_nil]) bufs /\
+  file = write_at init o (concat bufs) /\
+  forall lens, Forall (fun l => 0 <= l < 2^63) lens ->
+    concat (map rbytes (rrun (AtToReader o) file [] lens)) =
+    firstn (Z.to_nat (zsum lens)) (concat bufs ++ skipn (Z.to_nat (o + zlen (concat bufs))) init).
+Proof. exact at_to_writer_reader_round_trip. Qed.
+Print Assumptions C18_write_read_round_trip.
+
+(** non-vacuity of the widening: a 6-byte file, a section (2, 3) written with a truncated Write
+    after a short faulty one; bytes 0,1 and 5 keep their value; then a stream written at offset 4
+    (beyond the section, extending the file) is read back in chunks of 2, 0 and 5 bytes. *)
+Example C18_file_nonvacuous :
+  file_after [11;12;13;14;15;16] (run (NewSectionWriter 2 3) [(1, 2)] [CWrite [1;2]; CWrite [3;4;5]])
+    = [11;12;1;3;4;16] /\
+  map rets (run (NewSectionWriter 2 3) [(1, 2)] [CWrite [1;2]; CWrite [3;4;5]]) = [[1; 2]; [2; 1]] /\
+  file_after [11;12] (run (AtToWriter 4) [] (map CWrite [[1;2;3]; []; [4]])) = [11;12;0;0;1;2;3;4] /\
+  map rbytes (rrun (AtToReader 4) [11;12;0;0;1;2;3;4] [] [2; 0; 5]) = [[1;2]; []; [3;4]] /\
+  map rerr (rrun (AtToReader 4) [11;12;0;0;1;2;3;4] [] [2; 0; 5; 1]) = [0; 0; E_eof; E_eof] /\
+  map rcount (rrun (AtToReader (2^63 - 2)) [1;2;3] [] [5; 5]) = [0; 0] /\
+  map rcalls (rrun (AtToReader (2^63 - 2)) [1;2;3] [] [5; 5]) = [[(2^63 - 2, 1)]; [(2^63 - 2, 1)]] /\
+  map rcalls (rrun (AtToReader (2^63 - 1)) [1;2;3] [] [5]) = [[]].
+Proof. vm_compute. repeat split; reflexivity. Qed.
